@@ -3,6 +3,23 @@ boundary k, 120 virtual seconds, then the measured connection tables and registr
 
 One `run_scenario()` = one trace for specs/Stack/TeardownTrace.tla.
 
+Dimensions besides (procedure, cut kind, boundary k, delays):
+  * procedures that END IN FAILURE (`Proc.fails`): pairing rejected / declined / wrong passkey, refused
+    L2CAP connections, ATT and SDP error responses; cut at k = N means "failed, then cut";
+  * re-establishment (phase 2): after a disconnection cut, once link 1 is gone from every table of both
+    stacks, the link is established again (the controller re-uses the handle), the per-connection part of
+    the set-up is repeated and the same kind of procedure (`Proc.op2`, a variant that is meant to succeed)
+    runs on the new incarnation; a second quiesce / tables / registry check-point follows.  Registry
+    entries are logged as (connection, incarnation) pairs: the Connection object an entry hangs on tells
+    the incarnation (falls back to the handle when no object can be reached);
+  * `source_loss`: every Host is attached through a real bumble.transport.common.StreamPacketSource
+    (controller -> host bytes go through source.parser.feed_data) and the loss is signalled the way a
+    stream transport does it, by source.on_transport_lost();
+  * `flip`: link 1 is initiated by B, so the caller's stack A is the link-layer PERIPHERAL of the link
+    under test (and still the central of the bystander link).  Every device exposes the GATT service, and
+    on every LE link both ends subscribe to the other's characteristic and one indication is confirmed in
+    each direction before the procedure starts, so both roles hold GATT server state in every scenario.
+
 Topology (same as the spec): stack A (index 0) holds link 1 to B (index 1) - the link the
 procedure runs on - and link 2 to C (index 2), a bystander.  A message boundary is every HCI
 packet recorded at the taps of A and B in either direction (ACL data out of a host, ACL data
@@ -19,7 +36,9 @@ DEVS = "ABC"
 GHOST = 9
 SETTLE = 2.0  # virtual seconds to let set-up traffic and its completions drain
 AFTER = 120.0  # virtual seconds after the cut: beyond every protocol time-out (GATT 30 s)
-KINDS = ("local_disconnect", "remote_disconnect", "transport_loss")
+AFTER2 = 40.0  # virtual seconds after the procedure on the re-established link (it had 60 s to end before)
+KINDS = ("local_disconnect", "remote_disconnect", "transport_loss", "source_loss")
+LOSS_KINDS = ("transport_loss", "source_loss")
 
 SVC_UUID = "AAAA0000-0000-1000-8000-00805F9B34FB"
 CH_SHORT = "AAAA0001-0000-1000-8000-00805F9B34FB"
@@ -27,21 +46,47 @@ CH_LONG = "AAAA0002-0000-1000-8000-00805F9B34FB"
 CH_WRITE = "AAAA0003-0000-1000-8000-00805F9B34FB"
 CH_IND = "AAAA0004-0000-1000-8000-00805F9B34FB"
 LE_PSM = 0x81
+LE_PSM_NOBODY = 0x83  # no server: the connection request is refused
 CLASSIC_PSM = 0x1001
+CLASSIC_PSM_NOBODY = 0x1003
 
 
 # ----------------------------------------------------------------------------- projections
-def _handles_of_keys(d):
+def _conn_of(x):
+    """the Connection object a registry key / value hangs on, if one can be reached (optional)"""
+    if x is None or isinstance(x, (int, str, bytes)):
+        return None
+    if hasattr(x, "handle") and hasattr(x, "peer_address"):
+        return x
+    c = getattr(x, "connection", None)
+    if c is not None and hasattr(c, "handle"):
+        return c
+    return None
+
+
+def _entries(d):
+    """(handle, Connection object | None) for every entry of a per-connection registry"""
     out = []
-    for key in list(d.keys()):
+    for key, value in list(d.items()):
         if isinstance(key, int):
-            out.append(key)
+            h = key
+            objs = []
+            if isinstance(value, dict):
+                objs = [c for c in (_conn_of(v) for v in list(value.values())) if c is not None]
+            elif _conn_of(value) is not None:
+                objs = [_conn_of(value)]
+            if objs:
+                seen = set()
+                for c in objs:
+                    if id(c) not in seen:
+                        seen.add(id(c))
+                        out.append((h, c))
+            else:
+                out.append((h, None))
             continue
-        h = getattr(key, "handle", None)
-        if h is None:
-            conn = getattr(key, "connection", None)
-            h = getattr(conn, "handle", None)
-        out.append(h if isinstance(h, int) else -1)
+        c = _conn_of(key)
+        h = getattr(c, "handle", None) if c is not None else getattr(key, "handle", None)
+        out.append((h if isinstance(h, int) else -1, c))
     return out
 
 
@@ -59,39 +104,39 @@ def tables_of(stack):
 
 
 def registries_of(stack, extra=None, le_coc_owner=None):
-    """name -> handles a registry mentions.  Public attributes; private ones are optional
-    (missing -> that registry is simply not observed)."""
+    """name -> [(handle, Connection | None)] a registry mentions.  Public attributes; private ones are
+    optional (missing -> that registry is simply not observed)."""
     dev = stack.device
     out = {}
     gs = getattr(dev, "gatt_server", None)
     if gs is not None:
         if hasattr(gs, "subscribers"):
-            out["gatt_subscribers"] = _handles_of_keys(gs.subscribers)
+            out["gatt_subscribers"] = _entries(gs.subscribers)
         ind = []
         if hasattr(gs, "pending_confirmations"):
-            ind += _handles_of_keys(gs.pending_confirmations)
+            ind += _entries(gs.pending_confirmations)
         if hasattr(gs, "indication_semaphores"):
-            ind += _handles_of_keys(gs.indication_semaphores)
+            ind += _entries(gs.indication_semaphores)
         out["gatt_indications"] = ind
     sm = getattr(dev, "smp_manager", None)
     if sm is not None and hasattr(sm, "sessions"):
-        out["smp_sessions"] = _handles_of_keys(sm.sessions)
+        out["smp_sessions"] = _entries(sm.sessions)
     cm = getattr(dev, "l2cap_channel_manager", None)
     if cm is not None:
         ch = []
         if hasattr(cm, "channels"):
-            ch += _handles_of_keys(cm.channels)
+            ch += _entries(cm.channels)
         if hasattr(cm, "le_coc_channels"):
-            ch += _handles_of_keys(cm.le_coc_channels)
+            ch += _entries(cm.le_coc_channels)
         out["l2cap_channels"] = ch
         if hasattr(cm, "identifiers"):
-            out["l2cap_identifiers"] = _handles_of_keys(cm.identifiers)
+            out["l2cap_identifiers"] = [(h, None) for h, _ in _entries(cm.identifiers)]
         if hasattr(cm, "pending_credit_based_connections"):
-            out["l2cap_pending_connections"] = _handles_of_keys(cm.pending_credit_based_connections)
+            out["l2cap_pending_connections"] = _entries(cm.pending_credit_based_connections)
         # requests are keyed by identifier only; the one LE CoC request of a scenario is made
         # on `le_coc_owner`, so a left-over entry is state of that connection
         if hasattr(cm, "le_coc_requests") and le_coc_owner is not None:
-            out["l2cap_le_coc_requests"] = [le_coc_owner] if len(cm.le_coc_requests) else []
+            out["l2cap_le_coc_requests"] = [(le_coc_owner.handle, le_coc_owner)] if len(cm.le_coc_requests) else []
     # queued outbound data: packets waiting in the host or counted in flight
     q = []
     host = stack.host
@@ -104,14 +149,19 @@ def registries_of(stack, extra=None, le_coc_owner=None):
         st = getattr(queue, "_connection_state", None)
         pk = getattr(queue, "_packets", None)
         if st is not None and pk is not None:
-            q += [h for h, s in list(st.items()) if getattr(s, "in_flight", 0) > 0]
-            q += [h for (_, h) in list(pk)]
+            q += [(h, None) for h, s in list(st.items()) if getattr(s, "in_flight", 0) > 0]
+            q += [(h, None) for (_, h) in list(pk)]
         elif getattr(queue, "pending", 0) > 0:
-            q.append(-1)
+            q.append((-1, None))
     out["data_queue"] = q
+    # an HCI command of a connection that the controller has not answered (its sender still waits, and so does every
+    # later command of this host: they queue behind it)
+    cmd = getattr(host, "pending_command", None)
+    h = getattr(cmd, "connection_handle", None)
+    out["hci_pending_command"] = [(h, None)] if isinstance(h, int) else []
     for name, fn in (extra or {}).items():
-        out[name] = list(fn())
-    return {k: sorted(set(v)) for k, v in out.items()}
+        out[name] = [(h, None) for h in fn()]
+    return out
 
 
 def classify(exc):
@@ -146,10 +196,11 @@ class Ctx:
     def __init__(self, net, conns):
         self.net = net
         self.A, self.B, self.C = net[0], net[1], (net[2] if len(net.stacks) > 2 else None)
-        self.conn = conns  # conn[("A",1)] = Connection object of link 1 on A ...
+        self.conn = conns  # conn[("A",1)] = Connection object of the current incarnation of link 1 on A ...
         self.extra = {0: {}, 1: {}, 2: {}}  # extra registries per stack index
         self.le_coc_owner = None
         self.keep = []
+        self.phase = 1  # 2: on the re-established link
 
 
 class Proc:
@@ -157,12 +208,21 @@ class Proc:
     transport = "le"
     caller = 0  # index of the stack that awaits the operation
     cut_delay = 0.0  # virtual seconds between boundary k and the cut (0: next loop iteration)
+    fails = False  # the operation ENDS IN FAILURE (error outcome) when nobody cuts the link
+    flippable = False  # also run with link 1 initiated by B (the caller's stack is the link-layer peripheral)
 
     async def setup(self, cx):
-        pass
+        """once per scenario: servers, services, pairing configuration"""
+
+    async def bind(self, cx):
+        """once per incarnation of link 1 (after setup, and again after the re-establishment)"""
 
     async def op(self, cx):
         raise NotImplementedError
+
+    async def op2(self, cx):
+        """the same kind of procedure on the re-established link; it is meant to complete"""
+        return await self.op(cx)
 
 
 def _gatt_service():
@@ -181,8 +241,9 @@ def _gatt_service():
 
 class _Gatt(Proc):
     discover = True
+    flippable = True
 
-    async def setup(self, cx):
+    async def bind(self, cx):
         from bumble.device import Peer
 
         self.peer = Peer(cx.conn[("A", 1)])
@@ -200,6 +261,19 @@ class GattRead(_Gatt):
     name = "gatt_read"
 
     async def op(self, cx):
+        return await self.char(CH_SHORT).read_value()
+
+
+class GattReadError(_Gatt):
+    """ATT Error Response (read of a handle that does not exist), then the cut; a good read afterwards"""
+
+    name = "gatt_read_error"
+    fails = True
+
+    async def op(self, cx):
+        return await self.peer.read_value(0x00F0)
+
+    async def op2(self, cx):
         return await self.char(CH_SHORT).read_value()
 
 
@@ -236,12 +310,12 @@ class GattIndicate(_Gatt):
     name = "gatt_indicate"
     caller = 1
 
-    async def setup(self, cx):
-        await super().setup(cx)
+    async def bind(self, cx):
+        await super().bind(cx)
         await self.char(CH_IND).subscribe(lambda v: None, prefer_notify=False)
 
     async def op(self, cx):
-        return await cx.B.indicate_subscribers(cx.gatt_chars[3])
+        return await cx.B.indicate_subscribers(cx.gatt_chars[1][3])
 
 
 class _Pair(Proc):
@@ -267,6 +341,86 @@ class PairSc(_Pair):
     sc = True
 
 
+class PairRejected(_Pair):
+    """B's user rejects the pairing (Pairing Failed from the peer); on the re-established link B accepts"""
+
+    name = "pair_rejected"
+    fails = True
+    sc = True
+
+    async def setup(self, cx):
+        from bumble.pairing import PairingConfig, PairingDelegate
+
+        class Moody(PairingDelegate):
+            async def accept(self):
+                return cx.phase == 2
+
+        cx.A.pairing_config_factory = lambda connection: PairingConfig(sc=self.sc, mitm=False, bonding=True, delegate=PairingDelegate())
+        cx.B.pairing_config_factory = lambda connection: PairingConfig(sc=self.sc, mitm=False, bonding=True, delegate=Moody())
+
+
+class PairRejectedLegacy(PairRejected):
+    name = "pair_rejected_legacy"
+    sc = False
+
+
+class PairDeclined(Proc):
+    """SC numeric comparison: A's user says "no" (the local side fails the pairing and sends Pairing Failed);
+    on the re-established link the user says "yes" """
+
+    name = "pair_declined"
+    fails = True
+
+    async def setup(self, cx):
+        from bumble.pairing import PairingConfig, PairingDelegate
+
+        io = PairingDelegate.IoCapability.DISPLAY_OUTPUT_AND_YES_NO_INPUT
+
+        class Asking(PairingDelegate):
+            async def compare_numbers(self, number, digits):
+                return cx.phase == 2
+
+        cx.A.pairing_config_factory = lambda connection: PairingConfig(sc=True, mitm=True, bonding=True, delegate=Asking(io))
+        cx.B.pairing_config_factory = lambda connection: PairingConfig(sc=True, mitm=True, bonding=True, delegate=PairingDelegate(io))
+
+    async def op(self, cx):
+        return await cx.conn[("A", 1)].pair()
+
+
+class PairWrongPasskey(Proc):
+    """legacy passkey entry: B displays, A's user types a wrong number (Confirm Value Failed); the right one on
+    the re-established link"""
+
+    name = "pair_wrong_passkey"
+    fails = True
+
+    async def setup(self, cx):
+        from bumble.pairing import PairingConfig, PairingDelegate
+
+        shown = []
+
+        class Display(PairingDelegate):
+            async def display_number(self, number, digits):
+                shown.append(number)
+
+        class Keyboard(PairingDelegate):
+            async def get_number(self):
+                for _ in range(50):
+                    if shown:
+                        break
+                    await asyncio.sleep(0.01)
+                n = shown[-1] if shown else 0
+                return n if cx.phase == 2 else (n + 1) % 1000000
+
+        cx.A.pairing_config_factory = lambda connection: PairingConfig(
+            sc=False, mitm=True, bonding=True, delegate=Keyboard(PairingDelegate.IoCapability.KEYBOARD_INPUT_ONLY))
+        cx.B.pairing_config_factory = lambda connection: PairingConfig(
+            sc=False, mitm=True, bonding=True, delegate=Display(PairingDelegate.IoCapability.DISPLAY_OUTPUT_ONLY))
+
+    async def op(self, cx):
+        return await cx.conn[("A", 1)].pair()
+
+
 async def user_prompt_wait(answers):
     if answers:
         await asyncio.sleep(5.0)
@@ -276,7 +430,8 @@ async def user_prompt_wait(answers):
 
 class PairPrompt(Proc):
     """SC numeric comparison; the user of A is asked and (in the cut runs) never answers: the prompt
-    is an operation waiting on the connection, it has to be cancelled when the link goes"""
+    is an operation waiting on the connection, it has to be cancelled when the link goes.  On the
+    re-established link the user answers."""
 
     name = "pair_user_prompt"
     cut_delay = 1.0  # the cut falls into the gap after boundary k (the prompt is a gap without traffic)
@@ -289,7 +444,8 @@ class PairPrompt(Proc):
 
         class Asking(PairingDelegate):
             async def compare_numbers(self, number, digits):
-                return await sc.track_inline("user_prompt", user_prompt_wait(sc.kind is None), "A", 1)
+                name = "user_prompt" if cx.phase == 1 else "user_prompt.again"
+                return await sc.track_inline(name, user_prompt_wait(sc.kind is None or cx.phase == 2), "A", 1)
 
         cx.A.pairing_config_factory = lambda connection: PairingConfig(sc=True, mitm=True, bonding=True, delegate=Asking(io))
         cx.B.pairing_config_factory = lambda connection: PairingConfig(sc=True, mitm=True, bonding=True, delegate=PairingDelegate(io))
@@ -298,28 +454,45 @@ class PairPrompt(Proc):
         return await cx.conn[("A", 1)].pair()
 
 
+def _le_spec(psm):
+    from bumble import l2cap
+
+    return l2cap.LeCreditBasedChannelSpec(psm=psm, max_credits=4, mtu=64, mps=32)
+
+
 class LeCocConnect(Proc):
     name = "l2cap_le_connect"
+    flippable = True
 
     async def setup(self, cx):
-        from bumble import l2cap
-
         self.accepted = []
-        cx.B.create_l2cap_server(spec=l2cap.LeCreditBasedChannelSpec(psm=LE_PSM, max_credits=4, mtu=64, mps=32),
-                                 handler=self.accepted.append)
-        cx.le_coc_owner = 1
+        cx.B.create_l2cap_server(spec=_le_spec(LE_PSM), handler=self.accepted.append)
+
+    async def bind(self, cx):
+        cx.le_coc_owner = cx.conn[("A", 1)]
 
     async def op(self, cx):
-        from bumble import l2cap
+        return await cx.conn[("A", 1)].create_l2cap_channel(spec=_le_spec(LE_PSM))
 
-        return await cx.conn[("A", 1)].create_l2cap_channel(spec=l2cap.LeCreditBasedChannelSpec(psm=LE_PSM, max_credits=4, mtu=64, mps=32))
+
+class LeCocRefused(LeCocConnect):
+    """no server on the PSM: the peer refuses; a connect to a served PSM on the re-established link"""
+
+    name = "l2cap_le_refused"
+    fails = True
+
+    async def op(self, cx):
+        return await cx.conn[("A", 1)].create_l2cap_channel(spec=_le_spec(LE_PSM_NOBODY))
+
+    async def op2(self, cx):
+        return await LeCocConnect.op(self, cx)
 
 
 class LeCocDisconnect(LeCocConnect):
     name = "l2cap_le_disconnect"
 
-    async def setup(self, cx):
-        await super().setup(cx)
+    async def bind(self, cx):
+        await super().bind(cx)
         self.channel = await LeCocConnect.op(self, cx)
 
     async def op(self, cx):
@@ -330,7 +503,7 @@ class LeCocDrain(LeCocDisconnect):
     name = "l2cap_le_drain"
 
     async def op(self, cx):
-        self.accepted[0].sink = lambda data: None
+        self.accepted[-1].sink = lambda data: None
         self.channel.write(bytes(400))
         return await self.channel.drain()
 
@@ -339,6 +512,7 @@ class QueueDrain(Proc):
     """outbound data queued in the host (2 controller buffers), then DataPacketQueue.drain"""
 
     name = "data_queue_drain"
+    flippable = True
 
     async def op(self, cx):
         c = cx.conn[("A", 1)]
@@ -364,27 +538,40 @@ class HciRemoteFeatures(Proc):
         return await cx.A.get_remote_le_features(cx.conn[("A", 1)])
 
 
+def _classic_spec(psm):
+    from bumble import l2cap
+
+    return l2cap.ClassicChannelSpec(psm=psm)
+
+
 class ClassicConnect(Proc):
     name = "l2cap_classic_connect"
     transport = "classic"
+    flippable = True
 
     async def setup(self, cx):
-        from bumble import l2cap
-
         self.accepted = []
-        cx.B.create_l2cap_server(spec=l2cap.ClassicChannelSpec(psm=CLASSIC_PSM), handler=self.accepted.append)
+        cx.B.create_l2cap_server(spec=_classic_spec(CLASSIC_PSM), handler=self.accepted.append)
 
     async def op(self, cx):
-        from bumble import l2cap
+        return await cx.conn[("A", 1)].create_l2cap_channel(spec=_classic_spec(CLASSIC_PSM))
 
-        return await cx.conn[("A", 1)].create_l2cap_channel(spec=l2cap.ClassicChannelSpec(psm=CLASSIC_PSM))
+
+class ClassicRefused(ClassicConnect):
+    name = "l2cap_classic_refused"
+    fails = True
+
+    async def op(self, cx):
+        return await cx.conn[("A", 1)].create_l2cap_channel(spec=_classic_spec(CLASSIC_PSM_NOBODY))
+
+    async def op2(self, cx):
+        return await ClassicConnect.op(self, cx)
 
 
 class ClassicDisconnect(ClassicConnect):
     name = "l2cap_classic_disconnect"
 
-    async def setup(self, cx):
-        await super().setup(cx)
+    async def bind(self, cx):
         self.channel = await ClassicConnect.op(self, cx)
 
     async def op(self, cx):
@@ -439,6 +626,23 @@ class SdpSearch(Proc):
         return len(r)
 
 
+class SdpError(SdpSearch):
+    """SDP Error Response (attributes of a record that does not exist); the client's channel stays open"""
+
+    name = "sdp_error"
+    fails = True
+
+    async def op(self, cx):
+        from bumble import sdp
+
+        client = sdp.Client(cx.conn[("A", 1)])
+        await client.connect()
+        return await client.get_attributes(0x0DEAD000, [(0x0000, 0xFFFF)])
+
+    async def op2(self, cx):
+        return await SdpSearch.op(self, cx)
+
+
 class AvdtpDiscover(Proc):
     name = "avdtp_discover"
     transport = "classic"
@@ -468,19 +672,20 @@ class AvdtpDiscover(Proc):
 
 
 PROCS = {p.name: p for p in (
-    GattRead, GattLongRead, GattWrite, GattDiscovery, GattIndicate, PairLegacy, PairSc, PairPrompt,
-    LeCocConnect, LeCocDisconnect, LeCocDrain, QueueDrain, HciCommand, HciRemoteFeatures,
-    ClassicConnect, ClassicDisconnect, RfcommOpen, SdpSearch, AvdtpDiscover,
+    GattRead, GattReadError, GattLongRead, GattWrite, GattDiscovery, GattIndicate,
+    PairLegacy, PairSc, PairRejected, PairRejectedLegacy, PairDeclined, PairWrongPasskey, PairPrompt,
+    LeCocConnect, LeCocRefused, LeCocDisconnect, LeCocDrain, QueueDrain, HciCommand, HciRemoteFeatures,
+    ClassicConnect, ClassicRefused, ClassicDisconnect, RfcommOpen, SdpSearch, SdpError, AvdtpDiscover,
 )}
 
 
 # ----------------------------------------------------------------------------- one scenario
-def _ev(e, o=0, d="", c=0, k="", out="", S=(), layer="", r=""):
-    return {"e": e, "o": o, "d": d, "c": c, "k": k, "out": out, "S": list(S), "layer": layer, "r": r}
+def _ev(e, o=0, d="", c=0, k="", out="", S=(), layer="", x="", R=()):
+    return {"e": e, "o": o, "d": d, "c": c, "k": k, "out": out, "S": list(S), "layer": layer, "x": x, "R": list(R)}
 
 
 class Scenario:
-    def __init__(self, proc, kind=None, k=None, seed=0, max_delay=0.0, device_patch=None, after=AFTER):
+    def __init__(self, proc, kind=None, k=None, seed=0, max_delay=0.0, device_patch=None, after=AFTER, flip=False, again=True):
         self.proc_name = proc
         self.kind = kind  # None = uncut run (counts the boundaries)
         self.k = k
@@ -488,6 +693,8 @@ class Scenario:
         self.max_delay = max_delay
         self.device_patch = device_patch  # self-test shims: callable(net)
         self.after = after
+        self.flip = flip  # link 1 initiated by B
+        self.again = again  # re-establish link 1 after a disconnection cut and run the procedure again
         self.events = []
         self.details = {}  # op id -> (name, outcome detail)
         self.boundaries = 0
@@ -496,10 +703,31 @@ class Scenario:
         self.pending = {}
         self.snap = {}
         self.frozen = False
+        self.hmap = {0: {}, 1: {}, 2: {}}  # stack index -> handle -> (connection id, incarnation)
+        self.cur = {1: 0, 2: 0}  # connection id -> latest incarnation
+        self.objinc = {}  # id(Connection object) -> (connection id, incarnation)
+        self.reestablished = False
 
     # -- helpers
+    def register(self, idx, conn, cid, g):
+        self.hmap[idx][conn.handle] = (cid, g)
+        self.objinc[id(conn)] = (cid, g)
+        self.cur[cid] = max(self.cur[cid], g)
+        self.keepalive = getattr(self, "keepalive", [])
+        self.keepalive.append(conn)  # ids must stay unique
+
     def conn_id(self, idx, handle):
-        return self.hmap[idx].get(handle, GHOST)
+        """table entry (a handle) -> connection id; the handle of an older incarnation that is not the handle of
+        the latest one is nobody's"""
+        cid, g = self.hmap[idx].get(handle, (GHOST, 0))
+        return cid if cid != GHOST and g == self.cur[cid] else GHOST
+
+    def entry_id(self, idx, handle, obj):
+        """registry entry -> [connection id, incarnation]: by the Connection object it hangs on when one can be
+        reached, otherwise by the handle (= the latest incarnation that had this handle on this stack)"""
+        if obj is not None and id(obj) in self.objinc:
+            return list(self.objinc[id(obj)])
+        return list(self.hmap[idx].get(handle, (GHOST, 0)))
 
     def log_tables(self, net):
         for i, s in enumerate(net.stacks):
@@ -510,22 +738,21 @@ class Scenario:
     def log_registries(self, net, cx):
         snap = {}
         for i, s in enumerate(net.stacks):
-            owner = None
-            if cx.le_coc_owner is not None and i == 0:
-                owner = cx.conn[("A", 1)].handle
-            regs = registries_of(s, cx.extra.get(i), owner)
-            for name, handles in sorted(regs.items()):
-                ids = sorted({self.conn_id(i, h) for h in handles})
-                snap[(DEVS[i], name)] = ids
-                self.events.append(_ev("registry", d=DEVS[i], r=name, S=ids))
+            regs = registries_of(s, cx.extra.get(i), cx.le_coc_owner if i == 0 else None)
+            rows = []
+            for name, entries in sorted(regs.items()):
+                ids = sorted({tuple(self.entry_id(i, h, o)) for h, o in entries})
+                snap[(DEVS[i], name)] = [list(x) for x in ids]
+                rows.append({"r": name, "S": [list(x) for x in ids]})
+            self.events.append(_ev("registry", d=DEVS[i], R=rows))  # one event per stack: all its registries
         self.snap = snap
 
-    def start(self, name, coro, dev, conn):
+    def start(self, name, coro, dev, conn, expect=""):
         oid = len(self.details) + 1
         task = asyncio.get_running_loop().create_task(coro)
         self.details[oid] = [name, None, task]
         self.pending[oid] = task
-        self.events.append(_ev("call", o=oid, d=dev, c=conn))
+        self.events.append(_ev("call", o=oid, d=dev, c=conn, x=expect))
 
         def done(t, oid=oid):
             if self.frozen:  # the harness is tearing the loop down: not an outcome
@@ -561,6 +788,34 @@ class Scenario:
                 self.pending.pop(oid, None)
                 self.events.append(_ev("ret", o=oid, out=cls))
 
+    async def connect_link1(self, net, transport):
+        """-> (A's, B's) Connection of a new incarnation of link 1; initiated by A, or by B when flipped"""
+        ini, acc = (1, 0) if self.flip else (0, 1)
+        connect = net.connect_le if transport == "le" else net.connect_classic
+        task = asyncio.ensure_future(connect(ini, acc))
+        await asyncio.wait([task], timeout=60.0)  # (wait_for would wait for the cancellation to be honoured)
+        if not task.done():
+            task.cancel()
+            raise RuntimeError(f"link 1 is not established within 60 virtual seconds (suspended in {stuck_frame(task)})")
+        x, y = task.result()
+        return (y, x) if self.flip else (x, y)
+
+    async def background(self, cx, chars):
+        """every LE link: both ends subscribe (indications) to the other's characteristic and one indication is
+        confirmed in each direction, so that the GATT server of the central and of the peripheral both hold
+        state for the connection (raw CCCD write: all devices expose the same service, same handles)"""
+        from bumble import gatt
+
+        def cccd(i):
+            # the server adds the CCCD right behind the characteristic value
+            return next(a.handle for a in cx.net.devices[i].gatt_server.attributes
+                        if a.handle > chars[i][3].handle and a.type == gatt.GATT_CLIENT_CHARACTERISTIC_CONFIGURATION_DESCRIPTOR)
+
+        for (d, c), peer in ((("A", 1), 1), (("B", 1), 0), (("A", 2), 2), (("C", 2), 0)):
+            await cx.conn[(d, c)].gatt_client.write_value(cccd(peer), bytes([2, 0]), with_response=True)
+        for i, dev in enumerate(cx.net.devices):
+            await dev.indicate_subscribers(chars[i][3])
+
     # -- the run
     async def main(self):
         loop = asyncio.get_running_loop()
@@ -569,21 +824,39 @@ class Scenario:
         ctrl_cfg = {"total_num_le_acl_data_packets": 2} if self.proc_name == "data_queue_drain" else None
         net = rig.Net(3, seed=self.seed, max_delay=self.max_delay, controller_cfg=ctrl_cfg)
         self.net = net
-        svc, chars = _gatt_service()
-        net[1].add_service(svc)
+        sources = None
+        if self.kind == "source_loss":
+            # the Host sits behind a real stream-transport source: controller -> host bytes are parsed by the
+            # source's PacketParser, and the source is what learns that the transport died
+            from bumble.transport.common import StreamPacketSource
+
+            sources = []
+            for s in net.stacks:
+                src = StreamPacketSource()
+                src.set_packet_sink(s.host)
+                s.tap.line_c2h.deliver = src.parser.feed_data
+                sources.append(src)
+        net.sources = sources or []
+        chars = []
+        for dev in net.devices:
+            svc, ch = _gatt_service()
+            dev.add_service(svc)
+            chars.append(ch)
         if proc.transport == "classic":
             rig.enable_classic(net)
         await net.power_on()
         if self.device_patch:
             self.device_patch(net)
+        a1, b1 = await self.connect_link1(net, proc.transport)
         if proc.transport == "le":
-            a1, b1 = await net.connect_le(0, 1)
             a2, c2 = await net.connect_le(0, 2)
         else:
-            a1, b1 = await net.connect_classic(0, 1)
             a2, c2 = await net.connect_classic(0, 2)
-        self.hmap = {0: {a1.handle: 1, a2.handle: 2}, 1: {b1.handle: 1}, 2: {c2.handle: 2}}
+        for idx, conn, cid in ((0, a1, 1), (1, b1, 1), (0, a2, 2), (2, c2, 2)):
+            self.register(idx, conn, cid, 1)
         conns = {("A", 1): a1, ("B", 1): b1, ("A", 2): a2, ("C", 2): c2}
+        self.roles = {("A", 1): "peripheral" if self.flip else "central", ("B", 1): "central" if self.flip else "peripheral",
+                      ("A", 2): "central", ("C", 2): "peripheral"}
         cx = Ctx(net, conns)
         cx.scenario = self
         cx.gatt_chars = chars
@@ -601,7 +874,10 @@ class Scenario:
             conn.on("disconnection", goodbye(conn))
         self.events.append(_ev("est", c=1))
         self.events.append(_ev("est", c=2))
+        if proc.transport == "le":
+            await self.background(cx, chars)
         await proc.setup(cx)
+        await proc.bind(cx)
         await asyncio.sleep(SETTLE)
         self.log_tables(net)
 
@@ -615,7 +891,7 @@ class Scenario:
                 return
             cut_done[0] = True
             self.cut_at = self.boundaries
-            if self.kind == "transport_loss":
+            if self.kind in LOSS_KINDS:
                 who = caller
                 self.events.append(_ev("cut", k="loss", d=DEVS[who]))
                 s = net.stacks[who]
@@ -624,7 +900,10 @@ class Scenario:
                 s.tap.line_c2h.deliver = lambda p: None
                 s.tap.filter_h2c = lambda p: True
                 s.tap.filter_c2h = lambda p: True
-                s.host.on_transport_lost()
+                if sources is not None:
+                    sources[who].on_transport_lost()  # what StreamPacketSource.connection_lost() does
+                else:
+                    s.host.on_transport_lost()
             else:
                 who = caller if self.kind == "local_disconnect" else other
                 c = conns[(DEVS[who], 1)]
@@ -660,17 +939,51 @@ class Scenario:
         self.events.append(_ev("quiesce", S=sorted(self.pending)))
         self.log_tables(net)
         self.log_registries(net, cx)
+
+        # phase 2: the link was closed by a disconnection and is gone from every table of both stacks ->
+        # establish it again (the controller re-uses the handle) and run the same kind of procedure on it
+        def link1_gone():
+            for i, c in ((0, a1), (1, b1)):
+                t = tables_of(net.stacks[i])
+                if any(self.hmap[i].get(h, (0, 0))[0] == 1 for layer in t.values() for h in layer):
+                    return False
+            return True
+
+        def hosts_idle():
+            # a host with an unanswered HCI command cannot send another one (the observation above reports it when it
+            # is a command of the closed connection): no point in asking it to connect
+            return all(getattr(net.stacks[i].host, "pending_command", None) is None for i in (0, 1))
+
+        if self.again and self.kind in ("local_disconnect", "remote_disconnect") and link1_gone() and hosts_idle():
+            cx.phase = 2
+            self.events.append(_ev("est", c=1))
+            a1n, b1n = await self.connect_link1(net, proc.transport)
+            self.reestablished = True
+            self.register(0, a1n, 1, 2)
+            self.register(1, b1n, 1, 2)
+            conns[("A", 1)], conns[("B", 1)] = a1n, b1n
+            for conn in (a1n, b1n):
+                conn.on("disconnection", goodbye(conn))
+            await proc.bind(cx)
+            await asyncio.sleep(SETTLE)
+            # on a fresh link with a willing peer this operation completes: anything else is the old link's doing
+            task2 = self.start(proc.name + ".again", proc.op2(cx), DEVS[caller], 1, expect="result")
+            await asyncio.wait([task2], timeout=60.0)
+            await asyncio.sleep(AFTER2)
+            self.events.append(_ev("quiesce", S=sorted(self.pending)))
+            self.log_tables(net)
+            self.log_registries(net, cx)
         self.hangs = {oid: (self.details[oid][0], stuck_frame(t)) for oid, t in self.pending.items()}
         self.frozen = True
         return self
 
 
-def run_scenario(proc, kind=None, k=None, seed=0, max_delay=0.0, device_patch=None):
+def run_scenario(proc, kind=None, k=None, seed=0, max_delay=0.0, device_patch=None, flip=False, again=True):
     import warnings
 
     from lib import vt
 
     warnings.filterwarnings("ignore", message="coroutine .* was never awaited", category=RuntimeWarning)
-    sc = Scenario(proc, kind, k, seed, max_delay, device_patch)
+    sc = Scenario(proc, kind, k, seed, max_delay, device_patch, flip=flip, again=again)
     vt.run(sc.main())
     return sc
